@@ -20,7 +20,7 @@ CHECKS["C03"] = dict(
     text="For every LHS-shape x some/all x operator x RHS-class combination (exhaustive over the listed classes) and for random "
          "clauses on random documents, 6-9 spellings of the negated/un-negated clause are evaluated together by the real "
          "evaluator; the monitor asserts prefix-not == operator-not (all spellings), double negation == original, flip on "
-         "single comparable values, flip for `in` with right-hand lists taken from the document (query, variable, `[*]`), order inverses, the same laws with inline function calls on the right-hand side, the named-rule negation table and the same table for negated parameterised calls "
+         "single comparable values, flip for `in` with right-hand lists taken from the document (query, variable, `[*]`), order inverses, the same laws with inline function calls and with queries that select nothing on the right-hand side (SKIP under every spelling), the named-rule negation table and the same table for negated parameterised calls "
          "(`not p(args)` in rule bodies, when conditions, when blocks and `or` lines, with and without custom message).",
     note="Trusts the generator's model-based decision that a query selects exactly one comparable value (plain key paths only). "
          "Needs no reference semantics.",
@@ -32,7 +32,7 @@ CHECKS["C02"] = dict(
          "all shapes with <=2 lines plus a sample) and random programs with type blocks, parameterised rules, nested when/blocks are "
          "evaluated on random documents; every status assignment of 1-3 definitions of one rule name x 5 ways of naming it (clause, not, when, when !, or line) x user before/after is checked against `the first definition that is not SKIP decides`, a parameterised rule forced to PASS / FAIL / SKIP x 6 call forms, and type / filter / list blocks over two values whose bodies are forced to every pair of statuses. Each emitted EventRecord tree is checked node by node against the property's composition "
          "rules, the rule status against the formula over the forced leaves, the hook stream for balanced records, and the root "
-         "status against the structured report and the exit code of `validate --print-json`; with 2-3 data files in one run every root of the printed list is checked against its own data file and the exit code against the worst of them.",
+         "status against the structured report and the exit code of `validate --print-json`; with 2-3 data files in one run every printed record goes through the tree checker, must have the status of that file evaluated alone, and the exit code follows the worst of them.",
     note="Trusts the leaf gadgets to have the intended status (itself asserted through the tree). Filter records are treated as "
          "transparent; vacuous clauses (no value compared) are not constrained; error-terminated evaluations are exempt.",
     ref="DESIGN.md §6 P-C02")
@@ -41,7 +41,7 @@ CHECKS["C04"] = dict(
     technique="runtime monitoring: metamorphic order/repetition monitor with hook-observed memoisation histories",
     text="Random base programs that share variables and named references (30% with an alternative, `when`-guarded definition of a rule name) are evaluated together with up to ~25 order/repetition "
          "transforms each (all permutations of small rule bodies and rule orders, shuffled alternatives, duplicated lines, alternatives "
-         "and rules, early/late references, cyclic rule references under every rule order, a map with case-variant spellings of its keys addressed in a third spelling under 26 rule orders and all line orders, inserted filter lines that select nothing and therefore skip) on 2-3 documents; rule->status maps must agree. The verif-hooks event stream shows "
+         "and rules, early/late references, cyclic rule references under every rule order, nested parameterised calls reached twice with different arguments in either line order, a map with case-variant spellings of its keys addressed in a third spelling under 26 rule orders and all line orders, inserted filter lines that select nothing and therefore skip) on 2-3 documents; rule->status maps must agree. The verif-hooks event stream shows "
          "how many distinct variable-resolution orders and rule-status hit/miss patterns were actually exercised.",
     note="Groups where any variant errors are inconclusive (the property's proviso). Trusts the printer/parser round trip of the generated AST.",
     ref="DESIGN.md §6 P-C04")
@@ -53,7 +53,7 @@ CHECKS["C15"] = dict(
          "shadowing, a key of a query taken from a variable (`a.%k`), inlining of parameterised-rule calls - and both programs are evaluated on the same document; the rule->status maps "
          "must agree. Divergences are classified (hypothesis program for the `[*]`-after-variable quirk, per-line attribution for inlining) "
          "so that known findings have narrow signatures. Exhaustive key-interpolation matrix (12 clause forms x 3 polarities x 12 value classes x file/rule/block scope), call-volume check "
-         "(3/70/200 elements x call per element, nested, 90 sequential, negated; twice per process) and idle-argument check (rewriting the argument of an unread parameter as `some q` or a literal); keys-filter matrix (right-hand side from a literal-bound variable vs the literal in place); key-list matrix (a list of key names in a variable, literal / query-bound / passed as parameter, some keys absent, vs the keys written one by one); block-let matrix (a `let` inside rule / when / type / query blocks and filters, bound to literal, query, function result, vs the in-place form).",
+         "(3/70/200 elements x call per element, nested, 90 sequential, negated; twice per process) and idle-argument check (rewriting the argument of an unread parameter as `some q` or a literal); when-shadow matrix (a `let` inside a `when` block vs what its guard reads); keys-filter matrix (right-hand side from a literal-bound variable vs the literal in place); key-list matrix (a list of key names in a variable, literal / query-bound / passed as parameter, some keys absent, vs the keys written one by one); block-let matrix (a `let` inside rule / when / type / query blocks and filters, bound to literal, query, function result, vs the in-place form).",
     note="Skips the documented exception (`q empty` -> `%v empty`). Trusts the printer. Known findings: three classes in known_findings.json.",
     ref="DESIGN.md §6 P-C15")
 
@@ -62,14 +62,14 @@ CHECKS["C14"] = dict(
     text="Each generated program is pretty-printed canonically and with every single-occurrence flip of every documented token class "
          "(keyword case, not/NOT/!, or/OR/|OR|, =/:=, quotes, .n/[n], leading this., several blanks or a tab after not/NOT and between the tokens of a clause, indentation, blank lines, trailing spaces, line breaks in "
          "lists/filters, # comments) plus random combinations; `parse-tree --print-json` of variant and canonical text must be the same AST "
-         "(locations removed), sampled verdicts must agree; type blocks are compared with their desugaring and file-level clauses with `rule default` by verdict (incl. a file-level `when` block that names helper rules); an explicit-`this` matrix (clause forms x block / filter / when contexts, with and without `this.`) is compared by verdict on documents that make both outcomes occur.",
+         "(locations removed), sampled verdicts must agree; type blocks are compared with their desugaring and file-level clauses with `rule default` by verdict (incl. a file-level `when` block that names helper rules); fixed layout pairs around filters that start with a quoted key; an explicit-`this` matrix (clause forms x block / filter / when contexts, with and without `this.`) is compared by verdict on documents that make both outcomes occur.",
     note="A variant that fails to parse is a violation. Documented restrictions (reference ends its line) are never varied. Leading `this` is normalised in the AST and checked by verdict.",
     ref="DESIGN.md §6 P-C14")
 
 CHECKS["C06"] = dict(
     technique="runtime monitoring: real-process exit-status monitor with a scenario classifier as oracle",
     text="The shipped binary is run as real processes on scenarios built from finite classes (1..3 rules files from 9 kinds (incl. rules whose `when` guard decides by data and files that are not UTF-8) x 1..3 data "
-         "files from 6 kinds (incl. documents no rule applies to; every single-rules-file combination always runs), every position, x 12 invocation modes incl. payload, stdin, directories, explicit files mixed with directories in one option list (both orders), structured json/yaml/junit/sarif; "
+         "files from 6 kinds (incl. documents no rule applies to; every single-rules-file combination always runs), every position, x 12 invocation modes incl. payload, stdin, directories, explicit files mixed with directories in one option list (both orders), --print-json (plain, verbose, payload), structured json/yaml/junit/sarif; "
          "`test` scenarios x 4 formats x 4 layouts - files, directory, directory with 2-3 rules files and the scenario file at each position, --test-data directory with the scenario file in a sub-directory between all-matching files, with and without -a / -m); the exit status must fall in the class a 30-line classifier derives from what the "
          "generator built (per-pair verdicts confirmed by singleton library runs); in-process results must agree with process exits; "
          "missing paths and unusable option combinations must give an error exit, never 0 or 19; re-runs under NO_COLOR / CLICOLOR_FORCE / TERM settings must keep the exit status.",
@@ -94,7 +94,7 @@ CHECKS["C09"] = dict(
          "structured report (library and `validate --structured -o json`) is checked against the verbose record tree of the same "
          "evaluation: each rule in exactly the partition its status dictates, file-status rule, batch report over 1-3 rules files (distinct names or one base name in different directories) == union of "
          "single reports, every reported leaf check attributable (by message) to a FAIL value check in that rule's own subtree; records and report entries of "
-         "parameterised calls (incl. nested and message-less ones) must carry exactly the message written at that call in the rules text; every listed `in` / ordering comparison must fail on the very values it prints (query-vs-query clauses with partial matches included).",
+         "parameterised calls (incl. nested and message-less ones) must carry exactly the message written at that call in the rules text; every listed `in` / ordering comparison must fail on the very values it prints (query-vs-query clauses with partial matches included), every listed unary check must fail on the value it prints (clause found through its unique message).",
     note="The verbose tree is the ground truth (its own consistency is C02). Reported leaves are matched by custom message; leaves without a message match any FAIL record of the rule.",
     ref="DESIGN.md §6 P-C09")
 
@@ -105,7 +105,7 @@ CHECKS["C07"] = dict(
          "function in verbose and report mode, incl. reports > 8 KiB) are parsed back by independent parsers (python json, PyYAML, xml.etree, "
          "regex) and must agree on rule->status, file status and exit code; YAML==JSON as data, SARIF result count == failing checks, JUnit marks/counters. Groups of 2-3 rules files (distinct names, or one base name in different directories) x 1-3 data files, half of them with an "
          "--input-parameters document, go through 13 configurations (files, payload; plain, structured) and must agree on the exit code and the per-pair verdicts; "
-         "a quarter of the programs define one rule name twice with different outcomes; documents and custom messages carry markup-significant characters (<, &, quotes); in multi-file JUnit output every testsuite's failures=/errors= must count its own cases and agree with that data file's structured status.",
+         "a quarter of the programs define one rule name twice with different outcomes; documents and custom messages carry markup-significant characters (<, &, quotes); an evaluation that ends in an error must end with the same exit code in 8 configurations; in multi-file JUnit output every testsuite's failures=/errors= must count its own cases and agree with that data file's structured status.",
     note="Console reporters show only what -S selects: containment there, equality for -S all. The Lambda handler itself cannot be linked; it is covered via run_checks with its argument pattern.",
     ref="DESIGN.md §6 P-C07")
 
@@ -113,7 +113,7 @@ CHECKS["C12"] = dict(
     technique="runtime monitoring: batch-vs-singleton differential monitor with hook-observed scope lifetimes",
     text="Batches of 1-3 rules files that share variable and rule names with different definitions x 2-4 documents differing exactly in the "
          "queried keys are validated as explicit files in several orders (plain and structured), as directories with -a and -m (explicit mtimes), "
-         "as payload lists (half of the batches with an --input-parameters document read by every rules file), as structured junit and sarif batches (per-data-file testsuite / result units vs the stand-alone run), with data files of one base name in different directories, and as multi-case `test` files; 40% of the batches contain an empty / blank rules file (listed anywhere, walked first), 30% make 24-40 parameterised-rule calls per pair (per-call bookkeeping must start afresh), a pair that only fails after other evaluations in the same process is a violation; every (rules, data) pair's report must equal the report of the pair validated alone and "
+         "as payload lists (half of the batches with an --input-parameters document read by every rules file), as structured junit and sarif batches (per-data-file testsuite / result units vs the stand-alone run), with data files of one base name in different directories, and as multi-case `test` files; 30% alternate documents with one and with three competing spellings of a key (stand-alone pairs in fresh processes), 40% of the batches contain an empty / blank rules file (listed anywhere, walked first), 30% make 24-40 parameterised-rule calls per pair (per-call bookkeeping must start afresh), a pair that only fails after other evaluations in the same process is a violation; every (rules, data) pair's report must equal the report of the pair validated alone and "
          "the exit status must be the maximum over the pairs (40% of the batches end with a rules file every document satisfies). verif-hooks events assert one root scope per pair and no memo hit before a miss in a scope.",
     note="Reports are compared after removing file names and line/column details. In structured mode compliant/not_applicable are name sets by design.",
     ref="DESIGN.md §6 P-C12")
@@ -131,7 +131,7 @@ CHECKS["C16"] = dict(
 CHECKS["C17"] = dict(
     technique="runtime monitoring: differential monitor against the pre-merged document, over all -i orders and modes",
     text="Documents are split at random into data + 1-3 parameter files (JSON/YAML, differing sizes; flat names, the same base name in different "
-         "directories, or one directory given to -i, with stray non-data files in it; 30% of the parameter files are symbolic links, 60% of the lists carry an argument that contributes nothing); validating with -i in every order, in plain and "
+         "directories, or one directory given to -i, with stray non-data files in it; 30% of the parameter files are symbolic links, 60% of the lists carry an argument that contributes nothing); 35% of the rules files never spell a key (count / walk the merged root map); validating with -i in every order, in plain and "
          "structured mode, with one or two data files and in payload mode must give the verdicts and exit class of validating the pre-merged document; "
          "rules read keys by name and iterate the merged root map (`this.*`, `[ keys == | in | regex ]`); a deliberately overlapping key (param/param, "
          "data/param; scalar, list and map values, equal or different) must produce an error exit without a verdict - not a crash, not a silent choice - in both modes.",
@@ -141,7 +141,7 @@ CHECKS["C17"] = dict(
 CHECKS["C19"] = dict(
     technique="runtime monitoring: round-trip monitor (rulegen -> parse-tree -> validate on the source and on a mutated template)",
     text="Generated CloudFormation-shaped templates (1-5 resources over 1-3 types; plain and 17 classes of odd strings, ints incl. 2^53+1 and i64::MIN, floats (fraction / integral / exponent), bools, nested "
-         "lists/maps; repeated, re-typed (50 vs \"50\") and distinct values; uniform and non-uniform property sets) are fed to `rulegen` as a real process (twice); unless an "
+         "lists/maps; repeated, re-typed (50 vs \"50\") and distinct values; uniform and non-uniform property sets, fleets of 7-19 resources with pairwise different values) are fed to `rulegen` as a real process (twice); unless an "
          "error is reported the output must parse to exactly one rule per resource type with properties (type names incl. `-` and `@`), the --output file (absent, empty, longer, prefixed before) must equal stdout, every rule must PASS on the source "
          "template, and the rule of a type must FAIL after one scalar property value is changed to an unseen value; YAML templates written with 19 short-form tag spellings (scalar, sequence and mapping tags) must be refused or self-validate.",
     note="A rulegen crash is C08's concern (inconclusive here). Failing self-validations are attributed to value classes so that the two known findings stay narrow.",
@@ -151,7 +151,7 @@ CHECKS["C18"] = dict(
     technique="runtime monitoring: reference-model monitor (independent Python implementation of docs/FUNCTIONS.md) over observed function results",
     text="`let r = f(args)` is evaluated for every function x 23 argument queries (unicode, numeric strings, mixed-type lists, unresolved members first / in the middle / last / only, empty "
          "selections) x literal/query/variable/nested/file-level-let/call-argument forms, substring over 13x13 offsets (incl. -1, len, >=65536), join delimiters and empty members, "
-         "regex_replace full/partial/no match, 45 boolean/integer/float spellings and 21 integers (boundaries, values that wrap to a digit in 8/16/32 bits) through all converters one by one, random literals, and json round trips on random documents; the result list is read back through a failing "
+         "regex_replace full/partial/no match, 45 boolean/integer/float spellings and 21 integers (boundaries, values that wrap to a digit in 8/16/32 bits) through all converters one by one, parse_epoch on 16 RFC 3339 timestamps (offsets, fractions, pre-1970), random literals, and json round trips on random documents; the result list is read back through a failing "
          "clause on %r and compared, type-strictly and in order, with the reference; unparsable input must raise an error, never a value.",
     note="The reference abstains (UNSPEC, counted in evidence) where the documentation is silent; Python re / urllib / float parsing are trusted on the restricted inputs.",
     ref="DESIGN.md §6 P-C18")
@@ -172,7 +172,7 @@ CHECKS["C11"] = dict(
 CHECKS["C10"] = dict(
     technique="runtime monitoring: independent pointer-walk and source-position monitor over structured reports and hooked loader dumps",
     text="Documents (incl. random doubles, 64-bit integers, YAML literal/folded block scalars, ASCII-escaped JSON strings, JSON members shadowed by an earlier member of the same key, subtrees under empty-string keys; CRLF, leading blank lines, tab-indented JSON) written by a position-tracking emitter in 4 layouts are validated against rules that fail on every node (one clause per scalar, "
-         "unresolved probes below every map/list/scalar incl. keys taken from variables (`a.%k`), `in`, list iteration, filter-then-[*] on lists of lists and query right-hand sides, queries spelled in another case convention than the document); every reported from/to/traversed_to {path, "
+         "unresolved probes below every map/list/scalar incl. keys taken from variables (`a.%k`), `in`, list iteration, filter-then-[*] on lists of lists and query right-hand sides, queries spelled in another case convention than the document); in the template-aware console view every printed PropertyPath must resolve to the Value printed with it; every reported from/to/traversed_to {path, "
          "value} is resolved in the model document by an independent walk and must yield exactly that value, unresolved reports must stop at the "
          "deepest existing point of the queried path, and every [L,C] in messages - and, through the verif-hooks loader probe, of every scalar node - "
          "must equal the line/column where the emitter wrote that scalar.",
@@ -181,7 +181,7 @@ CHECKS["C10"] = dict(
 
 CHECKS["C08"] = dict(
     technique="runtime monitoring: crash/hang watchdog monitor over mutation and adversarial-grammar workloads, an arithmetic-overflow-checked build of the same worker, plus valgrind memcheck on the unsafe YAML loader paths",
-    text="Mutated rule texts, 41 adversarial but grammatical program shapes (filters after this/index/filter/keys, literal and function LHS, unary "
+    text="Mutated rule texts (a quarter with a long non-ASCII tail after the likely syntax error), 41 adversarial but grammatical program shapes (filters after this/index/filter/keys, literal and function LHS, unary "
          "operators on literals, mismatched/empty/unresolved function arguments, huge indices, self/mutual/when recursion, duplicate-name cycles, cyclic variable definitions, recursive parameterised rules, NaN/infinity operands, odd custom messages, quoted keys that look like other tokens (`\"% used\"`, `'%'`, `\"*\"`, `\"\"`), wrong arity, backtracking "
          "regexes, multi-byte substrings ...), generated programs with all features on, and 24 hostile documents plus mutated ones (as data, parameter file, "
          "test spec, payload envelope), CloudFormation- and Terraform-plan-shaped documents (template-aware console views) and ~60 omitted/conflicting/unsupported argument combinations are run through validate (files, payload, structured, `.ruleset` files and mixed rules directories), test (one and several test files per run, directories), parse-tree, rulegen (real processes, non-UTF-8 files) and "
